@@ -267,6 +267,12 @@ def run(prog, chk):
     chk.ob("R6.truncate-sets-size-only", "SFTPFile.truncate", w == [("attr.st_size", tr.params()[1])] and len(rq) == 1 and
            [unparse(a) for a in rq[0].args] == ["CMD_FSETSTAT", "self.handle", "attr"], tr.loc, "sets %s and sends FSETSTAT(handle, attr)" % w)
     ftr = Flow(prog, tr, implicit=False)
+    # what write() has buffered is written out before the size changes (a local file's truncate() flushes first);
+    # otherwise the buffered bytes land after the truncation and the file ends up longer than asked
+    fls = [n for (n, c) in ftr.nodes_with_call(name="self.flush")]
+    rqn = [n for (n, c) in ftr.nodes_with_call(name="self.sftp._request")]
+    chk.ob("R6.truncate-flushes-first", "SFTPFile.truncate", bool(fls) and bool(rqn) and ftr.dominated(rqn, guard_nodes=fls, complete=True), tr.loc,
+           "flush() %s the FSETSTAT request" % ("precedes" if fls else "does not precede"))
     sz = tr.params()[1]
     wn = [n for n in ftr.nodes(lambda n: n.kind == "stmt" and isinstance(n.ast, ast.Assign) and unparse(n.ast.targets[0]) == "attr.st_size")]
     okp = len(wn) == 1 and all(dn.kind == "entry" for (dn, rhs) in ftr.defs(sz, wn[0]))
